@@ -239,6 +239,12 @@ func GenProg(t *rapid.T, nRoot int, maxFiles int) *Prog {
 					im.Alias = "_"
 				case 3:
 					im.Alias = p.Libs[li].Name // explicit alias equal to the package name
+				case 4:
+					// aliased to the name of ANOTHER library (which this file may not import)
+					other := p.Libs[rapid.IntRange(0, len(p.Libs)-1).Draw(t, "othername")]
+					if other.Name != p.Libs[li].Name {
+						im.Alias = other.Name
+					}
 				}
 				name := p.localName(im)
 				if im.Alias != "_" && im.Alias != "." {
